@@ -102,7 +102,14 @@ func runStress(t *testing.T, thorough bool) []stressResult {
 	errA := errors.New("A")
 	// 1. one shared stack of all policies except hedge, sync and async, plus standalone calls
 	watchdog("shared-stack", func() (int, int, string) {
-		cb := circuitbreaker.Builder[int]().WithFailureThresholdRatio(3, 5).WithDelay(time.Microsecond).Build()
+		// the breaker's result listeners look at the breaker itself (logging its state is what such listeners are for):
+		// they run outside the breaker's lock
+		var cb circuitbreaker.CircuitBreaker[int]
+		var seen atomic.Int64
+		look := func(failsafe.ExecutionEvent[int]) {
+			seen.Add(int64(cb.State()) + int64(cb.Metrics().Failures()) + int64(cb.RemainingDelay()&1))
+		}
+		cb = circuitbreaker.Builder[int]().WithFailureThresholdRatio(3, 5).WithDelay(time.Microsecond).OnSuccess(look).OnFailure(look).Build()
 		rl := ratelimiter.SmoothBuilderWithMaxRate[int](time.Microsecond).WithMaxWaitTime(time.Millisecond).Build()
 		bh := bulkhead.Builder[int](4).WithMaxWaitTime(time.Millisecond).Build()
 		cache := &syncCache{m: map[string]int{}}
